@@ -205,8 +205,125 @@ def check_c20(ctx):
     hashset_run(ctx, cases, "C20")
 
 
+# ----------------------------------------------------------------------------- C22
+def bufio_run(ctx, cases, label):
+    """Run scripts on bfe_bufio and std bufio side by side; TLC validates both recordings against
+    Layer P.  bfe_bufio contradicting P = violation; std bufio contradicting P = the spec is wrong
+    (machinery failure, no verdict)."""
+    if not cases:
+        raise vlib.MachineryError("no cases generated (%s)" % label)
+    for i, c in enumerate(cases):
+        c["id"] = i + 1
+    res = ctx.harness("util", ["bufio"], cases=cases, timeout=1200)
+    crash = [r for r in res if "_harness_exit" in r or "_bad_case" in r]
+    summ = [r for r in res if r.get("summary")]
+    events = [r for r in res if "ev" in r]
+    if crash or not summ or summ[0]["cases"] != len(cases):
+        raise vlib.MachineryError("util bufio harness died (%s): %s" % (label, (crash or res[-1:])))
+    if summ[0]["drift"]:
+        ctx.drift("action=Buffered() %d values differ from the mechanism model (after %s)" %
+                  (summ[0]["drift"], summ[0]["drift_examples"]))
+    if summ[0]["std_diff"]:
+        ctx.notes.append("bfe_bufio and std bufio replies differ in %d scripts (first differing call: %s)" %
+                         (summ[0]["std_diff"], summ[0]["std_diff_examples"]))
+    details = {}
+    for i, e in enumerate(events):
+        e.pop("buf", None)
+        if "detail" in e:
+            details[i + 1] = e.pop("detail")
+    trace = "".join(json.dumps(e, separators=(",", ":")) + "\n" for e in events)
+    r = ctx.tlc("Util", "TraceBufio", "Trace_Bufio.cfg", mode="trace", timeout=1500,
+                extra_files={"trace.ndjson": trace}, count=False)
+    rep = [c for c in r.cases if c.get("done")]
+    if not r.ok or not rep or rep[0]["consumed"] != len(events):
+        raise vlib.MachineryError("bufio trace validation did not complete (%s): %s %s" %
+                                  (label, r.error or r.violation, r.out[-600:]))
+    ctx.traces(len(cases))
+    by_id = {c["id"]: c for c in cases}
+    pos, n = {}, {}
+    for i, e in enumerate(events):
+        n[e["cid"]] = n.get(e["cid"], -1) + 1
+        pos[i + 1] = n[e["cid"]]
+    stdbad = []
+    nbad = 0
+    for b in sorted(rep[0]["bad"], key=lambda x: x["l"]):
+        case = by_id[b["cid"] // 2]
+        j = pos[b["l"]]
+        ev = events[b["l"] - 1]
+        hist = [(o["op"], o["a"]) for o in case["ops"][:j]]
+        what = "stream=%s chunks=%s eofd=%s" % (case.get("s"), case.get("chunks"), case.get("eofd")) \
+            if case["kind"] == "r" else "urf=%s" % case.get("urf")
+        det = "%s ops[0..%d]=%s; observed %s %s" % (what, j - 1, hist, ev, details.get(b["l"], ""))
+        if b["cid"] % 2 == 1:
+            stdbad.append("%s: %s" % (b["why"], det[:600]))
+            continue
+        nbad += 1
+        sig = "%s/%s%s" % (b["why"], ev["ev"], "+prefix" if ev.get("pfx") else "")
+        ctx.report(sig, det[:1500], case=dict(case, ops=case["ops"][:j]), harness="util", cmd="bufio")
+    if stdbad:
+        raise vlib.MachineryError("Layer P of Bufio contradicts the standard library's bufio on %d scripts "
+                                  "(the spec must be corrected, no verdict): %s" % (len(stdbad), stdbad[:3]))
+    for c in cases:
+        ctx.count([c["kind"], c.get("s"), c.get("chunks"), c.get("eofd"), c.get("urf"),
+                   [(o["op"], o["a"], o.get("ch"), o.get("e")) for o in c["ops"]]], nontrivial=len(c["ops"]) > 0)
+    for c in cases[:1] + cases[-1:]:
+        ctx.sample({"case": {k: c.get(k) for k in ("kind", "s", "chunks", "eofd", "urf")},
+                    "ops": [(o["op"], o["a"]) for o in c["ops"][:8]],
+                    "recorded": [e for e in events if e["cid"] == 2 * c["id"]][:8]})
+    return nbad
+
+
+def bufio_gen(ctx, module, cfg, d, mode="mc", num=0, depth=0):
+    r = ctx.tlc("Util", module, cfg, mode=mode, defines=d, sim_num=num, sim_depth=depth,
+                timeout=1500, count=False)
+    if not r.ok:
+        raise vlib.MachineryError("%s %s failed: %s %s" % (module, d, r.error or r.violation, r.out[-500:]))
+    return r.cases
+
+
+ALLC = '{"x","X","r","n"}'
+
+
+def check_c22(ctx):
+    q = ctx.tier == "quick"
+    ctx.cov["rule"] = ("case = one script of Reader calls (Read, ReadByte, ReadRune, UnreadByte, UnreadRune, ReadSlice, "
+                       "ReadLine, ReadBytes/ReadString, Peek, WriteTo) over one stream from {x, CR, LF} delivered in one "
+                       "chunk pattern, or one script of Writer calls (Write, WriteString, WriteByte/WriteRune, Flush, "
+                       "ReadFrom), enumerated (short) or simulated by TLC from the mechanism model; each is executed on "
+                       "bfe_bufio and on the standard library's bufio with buffer size 16; TLC validates every recorded "
+                       "reply and the TotalRead/TotalWrite value read after every call against Layer P (std bufio must "
+                       "satisfy the same Layer P, otherwise no verdict). distinct = distinct scripts.")
+    # 1. TLC: the mechanism models satisfy Layer P and the counter clauses in every reachable state
+    rd = {"CLASSES": ALLC, "SYMS": 3, "CHUNKS": "{1,100,15002}", "EOFS": "{TRUE,FALSE}", "READS": "{1,3,16}",
+          "PEEKS": "{1,16}", "DELIMS": "{2}"} if q else \
+         {"CLASSES": ALLC, "SYMS": 4, "CHUNKS": "{1,3,100,15002,16}", "EOFS": "{TRUE,FALSE}", "READS": "{1,2,5,16,20}",
+          "PEEKS": "{0,1,3,16}", "DELIMS": "{1,2}"}
+    ctx.cov["constants"]["MC_BufR"] = rd
+    ctx.tlc_must_pass("Util", "BufR", "MC_BufR.cfg", defines=rd, timeout=3000)
+    wd = {"WS": "{0,1,2,15,16,17,33}", "FS": "{0,1,16,17,33}", "FC": "{1,5,100}", "MAXACC": 50 if q else 70}
+    ctx.cov["constants"]["MC_BufW"] = wd
+    ctx.tlc_must_pass("Util", "BufW", "MC_BufW.cfg", defines=wd, timeout=3000)
+    # 2. behaviours
+    cases = []
+    g = {"CLASSES": '{"X","r","n"}', "SYMS": 3, "CHUNKS": "{100,1}", "EOFS": "{FALSE}", "READS": "{2,16}",
+         "PEEKS": "{16}", "DELIMS": "{2}", "OPS": 2 if q else 3}
+    ctx.cov["constants"]["Gen_BufR_mc"] = g
+    cases += bufio_gen(ctx, "GenBufR", "Gen_BufR.cfg", g)
+    g = {"CLASSES": ALLC, "SYMS": 5, "CHUNKS": "{1,3,100,15002,7,16}", "EOFS": "{TRUE,FALSE}", "READS": "{1,2,5,16,20}",
+         "PEEKS": "{0,1,3,16}", "DELIMS": "{1,2}", "OPS": 10}
+    ctx.cov["constants"]["Gen_BufR_sim"] = dict(g, num=1500 if q else 30000)
+    cases += bufio_gen(ctx, "GenBufR", "Gen_BufR.cfg", g, "sim", 1500 if q else 30000, 14)
+    g = {"WS": "{0,1,15,17,33}", "FS": "{0,17,33}", "FC": "{5,100}", "MAXACC": 200, "OPS": 2 if q else 3}
+    ctx.cov["constants"]["Gen_BufW_mc"] = g
+    cases += bufio_gen(ctx, "GenBufW", "Gen_BufW.cfg", g)
+    g = {"WS": "{0,1,2,15,16,17,33}", "FS": "{0,1,16,17,33}", "FC": "{1,5,100}", "MAXACC": 400, "OPS": 10}
+    ctx.cov["constants"]["Gen_BufW_sim"] = dict(g, num=500 if q else 8000)
+    cases += bufio_gen(ctx, "GenBufW", "Gen_BufW.cfg", g, "sim", 500 if q else 8000, 14)
+    bufio_run(ctx, cases, "C22")
+
+
 # ----------------------------------------------------------------------------- registry
-PROPS = {"C19": check_c19, "C20": check_c20}
+PROPS = {"C19": check_c19, "C20": check_c20, "C22": check_c22}
 
 
 def replay(ctx, pid, rep):
@@ -215,6 +332,8 @@ def replay(ctx, pid, rep):
         ipdict_run(ctx, [case], "replay")
     elif pid == "C20":
         hashset_run(ctx, [case], "replay")
+    elif pid == "C22":
+        bufio_run(ctx, [case], "replay")
     rc = ctx.finish()
     print("replay: %s" % ("violation reproduced" if rc == 1 else "no violation on the current tree"))
     return rc
